@@ -87,6 +87,10 @@ def mirror_transforms(tx):
 def case_st(draw):
     sc = draw(scen.scenario_st(SHAPES, measure="maybe", stats=["mean", "sum", "stddev"]))
     sv, q = sc["survey"], sc["query"]
+    from props.c07 import _add_derived
+    for var in sv["vars"].values():
+        if var["type"] == "mr" and draw(st.integers(0, 2)) == 0:
+            _add_derived(draw, var)
     info = []
     tx = {}
     for name, d in zip(["rows_dimension", "columns_dimension"], q["dims"]):
